@@ -44,6 +44,7 @@ func setOf(l []any) map[int]bool {
 
 func runSegAPI(bs []vlib.Behaviour, cfgJSON string, res *vlib.Result) {
 	for _, b := range bs {
+		vlib.Progress(b.ID)
 		res.Behaviours++
 		replaySegAPI(b, res)
 	}
